@@ -77,6 +77,7 @@ def handleStatus (_ : Json) : R Json := do
   let t := (feats.zip featNames).map (fun (f, n) => (n, jBool (tableOK f.flag f.sub sites)))
   pure (jObj [("tableOK", jObj t), ("consistent", jBool (consistentB allSites documentedGates)),
               ("parallel_master", jBool (consistentB allSites parallelMaster)),
+              ("agents_master", jBool (consistentB allSites agentsMaster)),
               ("sites", jNat allSites.length), ("leaves", jNat leafNames.length),
               ("ext", jArr (extNames.map jStr))])
 
